@@ -455,7 +455,13 @@ pub fn gen_thread(class: &str, seed: u64, idx: u64) -> ThreadScenario {
         if i == 0 && class != "miri" && long_patterns {
             // a searcher with a long pattern (>= 1 KiB): stream searches with the
             // shipped capacity formula, real rolls, buffers sized from pattern lengths
-            let l = *r.pick(&[1024usize, 1100, 1500, 2048, 4096]);
+            // (single-client histories rarely get a pattern at / above the default 64 KiB
+            // buffer size: state sized by an earlier, ordinary stream search)
+            let l = if class == "hist" && r.chance(1, 6) {
+                *r.pick(&[65536usize, 65537, 70000])
+            } else {
+                *r.pick(&[1024usize, 1100, 1500, 2048, 4096])
+            };
             let long: Vec<u8> = (0..l).map(|_| *r.pick(&pal)).collect();
             s.patterns.truncate(2);
             s.patterns.insert(r.below(s.patterns.len() + 1), long);
